@@ -105,11 +105,39 @@ def scope(tier, seed):
                              'lasso word over 2^{p,q} with stem<=%d, loop<=3 (%d words)'
                              % ((1, 420) if tier == 'quick' else (2, 1764)),
             'CTL* quantified': 'A g / E g for all g of size<=1 and nested shapes, on all 148 K(<=2)',
-            'LNot': 'every formula above under 0..3 outer negations'}
+            'LNot': 'every formula above under 0..3 outer negations',
+            'deep': 'same-operator nestings 3-4 deep and implication chains over 4 atoms, temporal operators over '
+                    'constants and over atoms named True/False/None, in all three logics'}
+
+
+def rename(f, m):
+    if f[0] == 'ap':
+        return ('ap', m.get(f[1], f[1]))
+    if f[0] in ('t', 'f'):
+        return f
+    return (f[0],) + tuple(rename(x, m) for x in f[1:])
+
+
+def deep_shapes():
+    """Same-operator nestings 3 and 4 deep (left, right, mixed with 3-ary), implication chains."""
+    P_, Q_, T_, F__ = spaces.P, spaces.Q, spaces.T, spaces.F_
+    R_ = ('ap', 'r')
+    S_ = ('ap', 's')
+    out = []
+    for op in ('and', 'or'):
+        out += [(op, (op, (op, P_, Q_), R_), S_), (op, P_, (op, Q_, (op, R_, S_))), (op, (op, P_, Q_), (op, R_, S_)),
+                (op, (op, P_, Q_, R_), S_), (op, P_, (op, Q_, R_, S_)), (op, (op, (op, (op, P_, Q_), R_), S_), P_),
+                (op, ('not', (op, P_, (op, Q_, R_))), S_), (op, T_, (op, F__, (op, P_, T_)))]
+        other = 'or' if op == 'and' else 'and'
+        out += [(op, (other, (op, P_, Q_), R_), S_), (op, P_, (other, Q_, (op, R_, S_)))]
+    out += [('imp', ('imp', ('imp', P_, Q_), R_), S_), ('imp', P_, ('imp', Q_, ('imp', R_, S_))),
+            ('imp', F__, P_), ('imp', T_, P_), ('imp', P_, F__), ('imp', ('not', T_), Q_)]
+    return out
 
 
 def plan(tier, seed):
     sh = []
+    sh.append(['deep'])
     for i in range(16):
         sh.append(['ctl', i, 16])
     for lg in ('LTL', 'CTLS'):
@@ -177,6 +205,54 @@ def check_rewrite(logic, t, acc, sems=None, tier='quick', state=False):
                               None, {'result': spaces.fstr(t2)})
                 break
     return t2
+
+
+def atoms_of(f, acc_set):
+    if f[0] == 'ap':
+        acc_set.add(f[1])
+    elif f[0] not in ('t', 'f'):
+        for x in f[1:]:
+            atoms_of(x, acc_set)
+    return acc_set
+
+
+def check_rewrite_words4(logic, t, acc, state=False):
+    """Like check_rewrite but over the formula's own atom set: Boolean/path formulas on every lasso
+    word with stem<=1, loop<=2 over 2^atoms; CTL state formulas on every labelled structure with <=2
+    states over (up to 3 of) those atoms."""
+    L = lib.LANGS[logic]
+    case = {'logic': logic, 'tree': spaces.to_jsonable(t), 'tree_str': spaces.fstr(t)}
+    acc.ev(1, 1 if has_nonrestricted(t) else 0)
+    obj = lib.build(t, L)
+    r = call(obj.get_equivalent_restricted_formula)
+    if r[0] != 'ok':
+        acc.violation('rewrite-exception', case, 'restricted formula', r[1:])
+        return
+    rr = call(lib.read, r[1])
+    if rr[0] != 'ok':
+        acc.violation('rewrite-returns-non-formula', case, None, rr[1:])
+        return
+    t2 = rr[1]
+    why = syntactic(t2, logic)
+    if why:
+        acc.violation('not-restricted', case, 'restricted alphabet', {'result': spaces.fstr(t2), 'why': why})
+    atoms = sorted(atoms_of(t, set()) | atoms_of(t2, set()))
+    if state or (logic == 'CTL' and spaces.has_temporal(t)):
+        for n in (1, 2):
+            for k in spaces.kripkes(n, tuple(atoms[:3])):
+                if ctl_sat(k, t) != ctl_sat(k, t2):
+                    acc.violation('rewrite-not-equivalent', dict(case, k=k.to_json()), None,
+                                  {'result': spaces.fstr(t2)})
+                    return
+        return
+    letters = [frozenset(c) for r_ in range(len(atoms) + 1) for c in itertools.combinations(atoms, r_)]
+    for a in (0, 1):
+        for b in (1, 2):
+            for w in itertools.product(letters, repeat=a + b):
+                if path_truth(t, a, w) != path_truth(t2, a, w):
+                    acc.violation('rewrite-not-equivalent', dict(case, stem_len=a, word=[sorted(x) for x in w]),
+                                  None, {'result': spaces.fstr(t2)})
+                    return
 
 
 def check_lnot(logic, t, acc, sems=None, tier='quick', state=False):
@@ -266,6 +342,24 @@ def run_shard(shard, tier, seed, acc):
                 check_lnot(lg, f, acc, None, tier, state=False)
         acc.sample({'logic': lg, 'formula': 'G(p --> F(q))', 'words': len(get_words(tier))})
         return
+    if kind == 'deep':
+        maps = [{'p': 'False', 'q': 'True'}, {'p': 'True', 'q': 'False', 'r': 'None'}]
+        base = deep_shapes()
+        for lg in ('LTL', 'CTLS', 'CTL'):
+            for f in base:
+                check_rewrite_words4(lg, f, acc)
+        # temporal operators over constants and over atoms that merely look like constants
+        small = spaces.path_by_size(1) + [('R', spaces.F_, spaces.P), ('U', spaces.T, spaces.P),
+                                          ('R', spaces.P, spaces.F_), ('G', spaces.F_), ('F', spaces.T)]
+        for m in maps:
+            for g in small:
+                g2 = rename(g, m)
+                for lg in ('LTL', 'CTLS'):
+                    check_rewrite_words4(lg, g2, acc)
+            for f in spaces.ctl_by_size(1):
+                check_rewrite_words4('CTL', rename(f, m), acc, state=True)
+        acc.sample({'formula': '(((p or q) or r) or s)', 'logic': 'all three'})
+        return
     if kind == 'quant':
         sems = [(k, Sem(k)) for k in ks2()]
         gs = spaces.path_by_size(0) + spaces.path_by_size(1) + spaces.nary_path()[::7]
@@ -303,9 +397,9 @@ def replay(art):
     else:
         sems = None
     if c.get('op') == 'LNot':
-        inner = t
-        n = 0
         check_lnot_single(lg, t, acc, sems, state)
+    elif atoms_of(t, set()) - set(['p', 'q']):
+        check_rewrite_words4(lg, t, acc, state=(lg == 'CTL' and spaces.has_temporal(t)))
     else:
         check_rewrite(lg, t, acc, sems, 'thorough', state=state)
     fid = sorted(acc.d['findings'])[0] if acc.d['findings'] else None
